@@ -417,39 +417,45 @@ func runC04(c *an.Ctx) {
 			"the served message is a clone of the item with the item's rcode and the AD bit recomputed for this request",
 			fmt.Sprintf("the hit path must clone the item (%v), restore its rcode (%v) and recompute AD from this request (%v)", clone, setRcode, setAD))
 	}
-	// ---- R5c store ordering in writeUpstreamResponse
-	if fn := c.Fn("ecscache.(*Middleware).writeUpstreamResponse"); fn == nil {
-		c.Und("C04-R5", "ecscache.(*Middleware).writeUpstreamResponse", token.NoPos, "anchor not found")
-	} else {
-		c.Analysed(an.FnKey(fn))
-		var set, rm ssa.CallInstruction
-		var after []ssa.CallInstruction
-		for _, call := range an.Calls(fn) {
-			switch an.Short(an.CalleeName(call)) {
-			case "(*ecscache.Middleware).set":
-				set = call
-			case "ecscache.rmHopToHopData":
-				rm = call
-			case "ecscache.setRespAD", "ecscache.setECS":
-				after = append(after, call)
-			}
-		}
-		if set == nil || rm == nil {
-			c.Bad("C04-R5", "writeUpstreamResponse store order", fn.Pos(), "the upstream answer is no longer stored after hop-by-hop clean-up")
-		} else {
-			ok := an.Dominates(rm, set)
-			bad := ""
-			if !ok {
-				bad = "hop-by-hop data is removed after the answer was stored"
-			}
-			for _, a := range after {
-				if !an.Dominates(set, a) {
-					ok = false
-					bad = an.Short(an.CalleeName(a)) + " adjusts the response for this request before it is stored: the cached copy carries one client's AD bit or ECS option"
-				}
-			}
-			c.Check(ok && len(after) >= 2, "C04-R5", "writeUpstreamResponse store order", set.Pos(),
-				"stored after hop-by-hop clean-up and before the request-specific AD / ECS adjustments", bad)
+	ecsStoreOrder(c, "C04-R5")
+}
+
+// ecsStoreOrder checks that the ECS cache stores the upstream answer after
+// hop-by-hop clean-up and before any request-specific adjustment.
+func ecsStoreOrder(c *an.Ctx, rule string) {
+	fn := c.Fn("ecscache.(*Middleware).writeUpstreamResponse")
+	if fn == nil {
+		c.Und(rule, "ecscache.(*Middleware).writeUpstreamResponse", token.NoPos, "anchor not found")
+		return
+	}
+	c.Analysed(an.FnKey(fn))
+	var set, rm ssa.CallInstruction
+	var after []ssa.CallInstruction
+	for _, call := range an.Calls(fn) {
+		switch an.Short(an.CalleeName(call)) {
+		case "(*ecscache.Middleware).set":
+			set = call
+		case "ecscache.rmHopToHopData":
+			rm = call
+		case "ecscache.setRespAD", "ecscache.setECS":
+			after = append(after, call)
 		}
 	}
+	if set == nil || rm == nil {
+		c.Bad(rule, "writeUpstreamResponse store order", fn.Pos(), "the upstream answer is no longer stored after hop-by-hop clean-up")
+		return
+	}
+	ok := an.Dominates(rm, set)
+	bad := ""
+	if !ok {
+		bad = "hop-by-hop data is removed after the answer was stored"
+	}
+	for _, a := range after {
+		if !an.Dominates(set, a) {
+			ok = false
+			bad = an.Short(an.CalleeName(a)) + " adjusts the response for this request before it is stored: the cached copy carries one client's AD bit or ECS option and is served to other clients"
+		}
+	}
+	c.Check(ok && len(after) >= 2, rule, "writeUpstreamResponse store order", set.Pos(),
+		"stored after hop-by-hop clean-up and before the request-specific AD / ECS adjustments", bad)
 }
